@@ -10,12 +10,28 @@
 
    Known finding C17-deep-outline: get_outlines nests First links at most OUTLINE_DEPTH_LIMIT deep,
    so a forest higher than OUTLINE_DEPTH_LIMIT + 1 levels is built correctly but does not read
-   back ([too_deep], [C17_too_deep_witness]); the read-back theorems exclude exactly that class. *)
+   back ([too_deep], [C17_too_deep_witness]); the read-back theorems exclude exactly that class.
+
+   [get_toc] below is Model/TocNamed.v's: the complete model of Document::get_toc, which -- as the code does --
+   first runs get_named_destinations (C13's Model/Query.v, with its kid budget and depth limit) on the catalog's
+   `Dests` / `Names`->`Dests` tree.  The catalog is ARBITRARY in every read-back theorem: whatever the tree holds, it does
+   not influence the table of contents (the outline build_outline writes uses explicit destinations `[page /Fit]`),
+   except that get_toc answers Err when get_named_destinations refuses the tree ([name_tree_readable] = false:
+   `self.get_named_destinations(tree, ..)?` in get_outlines) -- a document outside the domain of "reads back"
+   (notes/C17.md; [C17_unreadable_name_tree_fails], [C17_unreadable_name_tree_witness]). *)
 From LV Require Import Base.Bytes Model.Obj Model.DocQ Model.PageTree Gen.Consts Spec.Dfs Proofs.PageTreeProofs.
 From LV Require Import Model.Outline Model.Toc Gen.QueryC
   Spec.OutlineSpec Proofs.OutlineProofs Proofs.OutlineProofsTitle Proofs.OutlineProofsRead
   Proofs.OutlineProofsOps Proofs.OutlineProofsMain Proofs.OutlineProofsReload Proofs.OutlineProofsAdjust
   Proofs.OutlineProofsForest Proofs.OutlineProofsFull Proofs.OutlineProofsProps Proofs.OutlineProofsPages.
+From LV Require Model.Query.
+From LV Require Import Model.TocNamed Proofs.OutlineProofsNamed Proofs.OutlineProofsNamedEx.
+
+(* the complete model (imported last, its names shadow Model/Toc.v's; spelled out for the reader) *)
+Notation get_toc := TocNamed.get_toc (only parsing).
+Notation walk := TocNamed.walk (only parsing).
+Notation named_destinations := TocNamed.named_destinations (only parsing).
+Notation name_tree_readable := TocNamed.name_tree_readable (only parsing).
 
 Local Open Scope N_scope.
 
@@ -103,14 +119,40 @@ Proof. exact decode_title_bytes. Qed.
 
 (* (4) Reading back.  add_bookmark calls, build_outline, the README's attach step, get_toc:
    the table of contents is the preorder of the denoted forest -- same titles, level = depth + 1,
-   page numbers of the targets in the document that is read, in the same order, no error entry.
+   page numbers of the targets in the document that is read, in the same order, no error entry --
+   for ANY catalog: a `Dests` dictionary or `Names` tree of whatever content (valid, cyclic, ill-typed) changes
+   nothing, unless get_named_destinations refuses it, in which case get_toc is Err.
    Fuel: the builder needs call count + 1, the reader one unit per bookmark (both recursions
-   terminate on the builder's output).
+   terminate on the builder's output; the name-tree walk has C13's fuel |objects| + 1 inside the model).
    Hypotheses: max_id bounds the object numbers (meaning of the field); object numbers stay below
-   2^32; trailer.Root leads to a catalog dictionary without name trees (get_named_destinations is
-   C13's); titles distinct and made of scalar values (Rust String); the forest is not in the known
-   class [too_deep].  [targets_are_pages]: every target is a page of the document. *)
+   2^32; trailer.Root leads to a catalog dictionary; titles distinct and made of scalar values (Rust String);
+   the forest is not in the known class [too_deep].  [targets_are_pages]: every target is a page of the document. *)
 Theorem C17_reads_back :
+  forall d ops cid rid cat fuel2,
+    let b := add_all (fresh_bdoc d) ops in
+    let f := forest_of_ops (map sop_of ops) in
+    let m0 := d_max_id d in
+    f <> [] ->
+    max_id_bounds d ->
+    m0 + 1 + 2 * N.of_nat (fsize f) < U32_LIMIT ->
+    root_id d = Some cid ->
+    get_object_mut_id (d_objects d) cid = Some (rid, ODict cat) ->
+    distinct_titles f -> scalar_titles f ->
+    too_deep f = false ->
+    (fsize f <= fuel2)%nat ->
+    exists b',
+      build_outline (default_fuel b) b = OOk (Some (m0 + 1, 0), b') /\
+      let d2 := attach (base b') cid (m0 + 1, 0) in
+      (targets_are_pages d2 f ->
+       get_toc fuel2 d2 = if name_tree_readable d2 then TOk (expected_toc d2 f) 0 else TErr).
+Proof.
+  intros d ops cid rid cat fuel2 b f m0 H1 H2 H3 H4 H5 H7 H8 H9 H10.
+  apply (reads_back_ops_nm d ops cid rid cat fuel2); try assumption.
+  apply N.ltb_ge. exact H9.
+Qed.
+
+(* (4a) the instance "catalog with neither Dests nor Names": nothing to read, the answer is the preorder *)
+Theorem C17_reads_back_no_name_tree :
   forall d ops cid rid cat fuel2,
     let b := add_all (fresh_bdoc d) ops in
     let f := forest_of_ops (map sop_of ops) in
@@ -127,12 +169,28 @@ Theorem C17_reads_back :
     exists b',
       build_outline (default_fuel b) b = OOk (Some (m0 + 1, 0), b') /\
       let d2 := attach (base b') cid (m0 + 1, 0) in
+      name_tree_readable d2 = true /\
       (targets_are_pages d2 f -> get_toc fuel2 d2 = TOk (expected_toc d2 f) 0).
 Proof.
   intros d ops cid rid cat fuel2 b f m0 H1 H2 H3 H4 H5 H6 H7 H8 H9 H10.
-  apply (reads_back_ops d ops cid rid cat fuel2); try assumption.
+  apply (reads_back_ops_no_tree d ops cid rid cat fuel2); try assumption.
   apply N.ltb_ge. exact H9.
 Qed.
+
+(* (4b) a name tree that get_named_destinations refuses ends get_toc, whatever the outline is; and the name-tree walk
+   always returns (C13_get_named_destinations_total): get_toc never panics or diverges because of the tree *)
+Theorem C17_unreadable_name_tree_fails :
+  forall d cat fuel, catalog d = Some cat -> name_tree_readable d = false -> get_toc fuel d = TErr.
+Proof. exact toc_unreadable. Qed.
+
+Theorem C17_named_destinations_return :
+  forall m cat, (exists nm, named_destinations m cat = WOk nm) \/ named_destinations m cat = WErr.
+Proof. exact named_destinations_returns. Qed.
+
+(* (4c) without a name tree the complete model is Model/Toc.v's (the model of the earlier rounds) *)
+Theorem C17_model_without_name_tree :
+  forall d cat fuel, catalog d = Some cat -> named_tree (d_objects d) cat = None -> get_toc fuel d = Toc.get_toc fuel d.
+Proof. exact get_toc_no_tree. Qed.
 
 (* (4') the same over any table that holds a forest *)
 Theorem C17_reads_back_forest :
@@ -145,7 +203,6 @@ Theorem C17_reads_back_forest :
     m0 + 1 + 2 * N.of_nat (fsize f) < U32_LIMIT ->
     root_id d = Some cid ->
     get_object_mut_id (d_objects d) cid = Some (rid, ODict cat) ->
-    no_name_trees cat ->
     distinct_titles f -> scalar_titles f ->
     too_deep f = false ->
     (fheight f <= fuel)%nat ->
@@ -153,18 +210,20 @@ Theorem C17_reads_back_forest :
     exists b',
       build_outline fuel b = OOk (Some (m0 + 1, 0), b') /\
       let d2 := attach (base b') cid (m0 + 1, 0) in
-      (targets_are_pages d2 f -> get_toc fuel2 d2 = TOk (expected_toc d2 f) 0).
+      (targets_are_pages d2 f ->
+       get_toc fuel2 d2 = if name_tree_readable d2 then TOk (expected_toc d2 f) 0 else TErr).
 Proof.
-  intros b f cid rid cat fuel fuel2 H1 H2 H3 d m0 H4 H5 H6 H7 H8 H9 H10 H11 H12 H13.
-  apply (reads_back_forest b f cid rid cat fuel fuel2); try assumption.
+  intros b f cid rid cat fuel fuel2 H1 H2 H3 d m0 H4 H5 H6 H7 H9 H10 H11 H12 H13.
+  apply (reads_back_forest_nm b f cid rid cat fuel fuel2); try assumption.
   apply N.ltb_ge. exact H11.
 Qed.
 
 (* (5) Also after saving and reloading: composition with C01.  C01's statement enters as the three
    premises about d' (the reloaded document): same Root, every object equal up to the number
    normalisation [nn nreal] (a real may come back as an integer or a real; nothing else changes),
-   same number of objects.  Then the pages are enumerated identically and the table of contents of
-   d' is the same preorder. *)
+   same number of objects.  Then the pages are enumerated identically, get_named_destinations accepts the name tree
+   of d' iff it accepts that of d2 (same path: only reals differ, the kid budget is objects.len()), and the table of
+   contents of d' is the same preorder. *)
 Theorem C17_reads_back_after_reload :
   forall nreal d ops cid rid cat fuel2 d',
     (forall r, (exists z, nreal r = OInt z) \/ (exists r', nreal r = OReal r')) ->
@@ -176,7 +235,6 @@ Theorem C17_reads_back_after_reload :
     m0 + 1 + 2 * N.of_nat (fsize f) < U32_LIMIT ->
     root_id d = Some cid ->
     get_object_mut_id (d_objects d) cid = Some (rid, ODict cat) ->
-    no_name_trees cat ->
     distinct_titles f -> scalar_titles f ->
     too_deep f = false ->
     (fsize f <= fuel2)%nat ->
@@ -187,12 +245,23 @@ Theorem C17_reads_back_after_reload :
       (forall id, lookup (d_objects d') id = option_map (nn nreal) (lookup (d_objects d2) id)) ->
       length (d_objects d') = length (d_objects d2) ->
       targets_are_pages d2 f ->
-      get_pages d' = get_pages d2 /\ get_toc fuel2 d' = TOk (expected_toc d2 f) 0.
+      get_pages d' = get_pages d2 /\
+      get_toc fuel2 d' = if name_tree_readable d2 then TOk (expected_toc d2 f) 0 else TErr.
 Proof.
-  intros nreal d ops cid rid cat fuel2 d' H0 b f m0 H1 H2 H3 H4 H5 H6 H7 H8 H9 H10.
-  apply (reads_back_ops_reload nreal d ops cid rid cat fuel2 d'); try assumption.
+  intros nreal d ops cid rid cat fuel2 d' H0 b f m0 H1 H2 H3 H4 H5 H7 H8 H9 H10.
+  apply (reads_back_ops_reload_nm nreal d ops cid rid cat fuel2 d'); try assumption.
   apply N.ltb_ge. exact H9.
 Qed.
+
+(* get_named_destinations takes the same path in the reloaded document: readable iff readable *)
+Theorem C17_name_tree_after_reload :
+  forall nreal, (forall r, (exists z, nreal r = OInt z) \/ (exists r', nreal r = OReal r')) ->
+  forall d d',
+    dict_get (d_trailer d') K_Root = dict_get (d_trailer d) K_Root ->
+    (forall id, lookup (d_objects d') id = option_map (nn nreal) (lookup (d_objects d) id)) ->
+    length (d_objects d') = length (d_objects d) ->
+    name_tree_readable d' = name_tree_readable d.
+Proof. exact readable_reload. Qed.
 
 (* number normalisation never changes the page enumeration of any document *)
 Theorem C17_pages_after_reload :
@@ -218,7 +287,6 @@ Theorem C17_reads_back_original_pages :
     m0 + 1 + 2 * N.of_nat (OutlineSpec.fsize f) < U32_LIMIT ->
     Outline.root_id d = Some cid ->
     get_object_mut_id (d_objects d) cid = Some (rid, ODict cat) ->
-    no_name_trees cat ->
     distinct_titles f -> scalar_titles f ->
     too_deep f = false ->
     (OutlineSpec.fsize f <= fuel2)%nat ->
@@ -230,10 +298,11 @@ Theorem C17_reads_back_original_pages :
       build_outline (default_fuel b) b = OOk (Some (m0 + 1, 0), b') /\
       let d2 := attach (base b') cid (m0 + 1, 0) in
       get_pages d2 = get_pages d /\
-      (targets_are_pages d f -> get_toc fuel2 d2 = TOk (expected_toc d f) 0).
+      (targets_are_pages d f ->
+       get_toc fuel2 d2 = if name_tree_readable d2 then TOk (expected_toc d f) 0 else TErr).
 Proof.
-  intros d ops cid rid cat fuel2 pcat i g ks b f m0 H1 H2 H3 H4 H5 H6 H7 H8 H9 H10 H11 H12 H13 H14.
-  apply (reads_back_ops_wf d ops cid rid cat fuel2 pcat i g ks); try assumption.
+  intros d ops cid rid cat fuel2 pcat i g ks b f m0 H1 H2 H3 H4 H5 H7 H8 H9 H10 H11 H12 H13 H14.
+  apply (reads_back_ops_wf_nm d ops cid rid cat fuel2 pcat i g ks); try assumption.
   apply N.ltb_ge. exact H9.
 Qed.
 
@@ -256,8 +325,9 @@ Theorem C17_too_deep_witness :
   targets_are_pages deep_final deep_forest /\
   (exists b', build_outline (default_fuel (add_all (fresh_bdoc ex_doc) deep_ops)) (add_all (fresh_bdoc ex_doc) deep_ops)
               = OOk (Some (5, 0), b') /\ attach (base b') (1, 0) (5, 0) = deep_final) /\
+  name_tree_readable deep_final = true /\
   get_toc 1000 deep_final = TErr.
-Proof. exact deep_witness. Qed.
+Proof. exact deep_witness_nm. Qed.
 
 (* (6) Zero-page parents.  The denoted forest really is a forest (every bookmark id at most once) of
    height at most the number of calls; on any table holding a forest with distinct ids
@@ -298,7 +368,6 @@ Theorem C17_reads_back_adjusted :
     m0 + 1 + 2 * N.of_nat (fsize f) < U32_LIMIT ->
     root_id d = Some cid ->
     get_object_mut_id (d_objects d) cid = Some (rid, ODict cat) ->
-    no_name_trees cat ->
     distinct_titles f -> scalar_titles f ->
     too_deep f = false ->
     (fheight f <= fuel)%nat ->
@@ -308,10 +377,11 @@ Theorem C17_reads_back_adjusted :
       Forall (trepr (bookmark_table b1)) g /\
       build_outline fuel b1 = OOk (Some (m0 + 1, 0), b') /\
       let d2 := attach (base b') cid (m0 + 1, 0) in
-      (targets_are_pages d2 g -> get_toc fuel2 d2 = TOk (expected_toc d2 g) 0).
+      (targets_are_pages d2 g ->
+       get_toc fuel2 d2 = if name_tree_readable d2 then TOk (expected_toc d2 g) 0 else TErr).
 Proof.
-  intros d ops cid rid cat fuel fuel2 b f g m0 H1 H2 H3 H4 H5 H6 H7 H8 H9 H10 H11.
-  apply (reads_back_adjusted d ops cid rid cat fuel fuel2); try assumption.
+  intros d ops cid rid cat fuel fuel2 b f g m0 H1 H2 H3 H4 H5 H7 H8 H9 H10 H11.
+  apply (reads_back_adjusted_nm d ops cid rid cat fuel fuel2); try assumption.
   apply N.ltb_ge. exact H9.
 Qed.
 
@@ -329,7 +399,7 @@ Theorem C17_adjust_zero_pages_example :
   get_toc 6 zero_final = TOk (expected_toc zero_final (map fix_tree zero_forest)) 0 /\
   map te_page (expected_toc zero_final (map fix_tree zero_forest)) = [2; 2; 2; 1; 1; 1] /\
   map te_level (expected_toc zero_final (map fix_tree zero_forest)) = [1; 2; 3; 2; 1; 2].
-Proof. exact zero_example. Qed.
+Proof. exact zero_example_nm. Qed.
 
 (* no root bookmark: nothing is built, the document is unchanged *)
 Theorem C17_no_bookmark :
@@ -352,8 +422,54 @@ Theorem C17_example :
     = OOk (Some (5, 0), ex_built) /\
   targets_are_pages ex_final ex_forest /\
   expected_toc ex_final ex_forest = ex_toc /\
+  name_tree_readable ex_final = true /\
   get_toc 4 ex_final = TOk ex_toc 0.
-Proof. exact ex_hyps. Qed.
+Proof. exact ex_hyps_nm. Qed.
+
+(* non-vacuity with a name tree: the same calls over the same document whose catalog has `Names << /Dests 5 0 R >>`, a root node
+   with a Kids reference and a leaf with two names (an indirect destination array, a direct dictionary with D):
+   get_named_destinations collects both names, get_toc returns the same four rows *)
+Theorem C17_example_named_destinations :
+  ex_forest <> [] /\ max_id_bounds nd_doc /\
+  d_max_id nd_doc + 1 + 2 * N.of_nat (fsize ex_forest) < U32_LIMIT /\
+  root_id nd_doc = Some (1, 0) /\
+  get_object_mut_id (d_objects nd_doc) (1, 0) = Some ((1, 0), ODict nd_cat) /\
+  (exists b', build_outline (default_fuel (add_all (fresh_bdoc nd_doc) ex_ops)) (add_all (fresh_bdoc nd_doc) ex_ops)
+              = OOk (Some (8, 0), b') /\ attach (base b') (1, 0) (8, 0) = nd_final) /\
+  targets_are_pages nd_final ex_forest /\
+  expected_toc nd_final ex_forest = ex_toc /\
+  (exists cat tree, catalog nd_final = Some cat /\ named_tree (d_objects nd_final) cat = Some tree /\
+     map fst (fst (Query.get_named_destinations (Query.fuel_nd (d_objects nd_final)) (d_objects nd_final) tree []))
+     = [bs "intro"; bs "ch1"]) /\
+  name_tree_readable nd_final = true /\
+  get_toc 4 nd_final = TOk ex_toc 0.
+Proof. exact nd_example. Qed.
+
+(* the domain restriction is real: a cyclic name tree (`Dests 5 0 R`, 5 0 obj << /Kids [5 0 R] >>) and an ill-typed one
+   (`Dests << /Names [(k) << >>] >>`) beside the same bookmarks: the outline is built as before (the First/Next walk alone
+   returns the outlines of the example without a name tree), every other hypothesis of (4) holds, get_toc answers Err.
+   Replayed on the crate (notes/C17.md). *)
+Theorem C17_unreadable_name_tree_witness :
+  max_id_bounds OutlineProofsNamedEx.cyc_doc /\ root_id OutlineProofsNamedEx.cyc_doc = Some (1, 0) /\
+  get_object_mut_id (d_objects OutlineProofsNamedEx.cyc_doc) (1, 0) = Some ((1, 0), ODict cyc_cat) /\
+  (exists b', build_outline (default_fuel (add_all (fresh_bdoc OutlineProofsNamedEx.cyc_doc) ex_ops))
+                            (add_all (fresh_bdoc OutlineProofsNamedEx.cyc_doc) ex_ops)
+              = OOk (Some (6, 0), b') /\ attach (base b') (1, 0) (6, 0) = cyc_final) /\
+  targets_are_pages cyc_final ex_forest /\
+  max_id_bounds bad_doc /\ root_id bad_doc = Some (1, 0) /\
+  get_object_mut_id (d_objects bad_doc) (1, 0) = Some ((1, 0), ODict bad_cat) /\
+  (exists b', build_outline (default_fuel (add_all (fresh_bdoc bad_doc) ex_ops)) (add_all (fresh_bdoc bad_doc) ex_ops)
+              = OOk (Some (5, 0), b') /\ attach (base b') (1, 0) (5, 0) = bad_final) /\
+  targets_are_pages bad_final ex_forest /\
+  name_tree_readable cyc_final = false /\ get_toc 4 cyc_final = TErr /\
+  name_tree_readable bad_final = false /\ get_toc 4 bad_final = TErr /\
+  (exists outs b1 b2,
+     outs <> [] /\
+     option_map (fun first => walk 4 (d_objects cyc_final) first [] (N.of_nat (length (d_objects cyc_final))) 0)
+                (first_of cyc_final 6) = Some (WOk (outs, b1, [])) /\
+     option_map (fun first => Toc.walk 4 (d_objects ex_final) first (N.of_nat (length (d_objects ex_final))) 0)
+                (first_of ex_final 5) = Some (WOk (outs, b2))).
+Proof. exact unreadable_witness. Qed.
 
 Print Assumptions C17_forest_of_calls.
 Print Assumptions C17_orphans_ignored.
@@ -362,8 +478,13 @@ Print Assumptions C17_outline_ids_fresh.
 Print Assumptions C17_titles_and_dests.
 Print Assumptions C17_title_any_unicode.
 Print Assumptions C17_reads_back.
+Print Assumptions C17_reads_back_no_name_tree.
+Print Assumptions C17_unreadable_name_tree_fails.
+Print Assumptions C17_named_destinations_return.
+Print Assumptions C17_model_without_name_tree.
 Print Assumptions C17_reads_back_forest.
 Print Assumptions C17_reads_back_after_reload.
+Print Assumptions C17_name_tree_after_reload.
 Print Assumptions C17_pages_after_reload.
 Print Assumptions C17_reads_back_original_pages.
 Print Assumptions C17_example_original_pages.
@@ -375,6 +496,8 @@ Print Assumptions C17_reads_back_adjusted.
 Print Assumptions C17_adjust_zero_pages_example.
 Print Assumptions C17_no_bookmark.
 Print Assumptions C17_example.
+Print Assumptions C17_example_named_destinations.
+Print Assumptions C17_unreadable_name_tree_witness.
 
 (* ------------------------------------------------------------------------------------------
    (5') After saving and reloading, with C01_full discharging the premises of (5)
@@ -390,7 +513,8 @@ Section AfterSaveAndReload.
 
   (* cross-reference TABLE format.  The document build_outline + attach produce is again in C01's domain (the created
      objects are well-formed dictionaries without Type, under fresh numbers), so C01_full applies: the file loads, and
-     the loaded document has the same pages and the same table of contents.  No hypothesis on the page tree. *)
+     the loaded document has the same pages, a name tree that is readable iff that of d2 is, and the same table of
+     contents.  ANY catalog; no hypothesis on the page tree. *)
   Theorem C17_reads_back_after_save_load_table :
     forall d ops cid rid cat fuel2,
       let b := add_all (fresh_bdoc d) ops in
@@ -401,7 +525,6 @@ Section AfterSaveAndReload.
       m0 + 1 + 2 * N.of_nat (OutlineSpec.fsize f) + 2 < u32_mod ->
       Outline.root_id d = Some cid ->
       get_object_mut_id (d_objects d) cid = Some (rid, ODict cat) ->
-      no_name_trees cat ->
       distinct_titles f -> scalar_titles f ->
       too_deep f = false ->
       (OutlineSpec.fsize f <= fuel2)%nat ->
@@ -413,13 +536,16 @@ Section AfterSaveAndReload.
         savable d2 /\ known_deep d2 = false /\
         (small_file XTable d2 -> targets_are_pages d2 f ->
          exists d', load (so_bytes (save XTable d2)) = LOk d' XTTable /\
-                    get_pages d' = get_pages d2 /\ get_toc fuel2 d' = TOk (expected_toc d2 f) 0).
-  Proof. exact reads_back_ops_after_save_load_table. Qed.
+                    get_pages d' = get_pages d2 /\
+                    name_tree_readable d' = name_tree_readable d2 /\
+                    get_toc fuel2 d' = if name_tree_readable d2 then TOk (expected_toc d2 f) 0 else TErr).
+  Proof. exact reads_back_ops_after_save_load_table_nm. Qed.
 
   (* EITHER format (xt), page trees meeting C12's hypotheses; page numbers of the ORIGINAL document as in (7).  In the
      stream format the loaded document holds one object more (the cross-reference stream), which enlarges the
      iteration budget of get_pages -- C12_stream_reload_budget_witness shows that this is visible on a cyclic page
-     tree -- hence the hypotheses of C12_dfs. *)
+     tree -- hence the hypotheses of C12_dfs; it also enlarges the kid budget of get_named_destinations, so whether the
+     name tree is readable is stated on the loaded document d'. *)
   Theorem C17_reads_back_after_save_load :
     forall d ops cid rid cat fuel2 xt pcat i g ks,
       let b := add_all (fresh_bdoc d) ops in
@@ -430,7 +556,6 @@ Section AfterSaveAndReload.
       m0 + 1 + 2 * N.of_nat (OutlineSpec.fsize f) + 2 < u32_mod ->
       Outline.root_id d = Some cid ->
       get_object_mut_id (d_objects d) cid = Some (rid, ODict cat) ->
-      no_name_trees cat ->
       distinct_titles f -> scalar_titles f ->
       too_deep f = false ->
       (OutlineSpec.fsize f <= fuel2)%nat ->
@@ -446,8 +571,9 @@ Section AfterSaveAndReload.
         savable d2 /\ known_deep d2 = false /\
         (small_file xt d2 -> targets_are_pages d f ->
          exists d', load (so_bytes (save xt d2)) = LOk d' (xtype_of xt) /\
-                    get_pages d' = get_pages d /\ get_toc fuel2 d' = TOk (expected_toc d f) 0).
-  Proof. exact reads_back_ops_after_save_load. Qed.
+                    get_pages d' = get_pages d /\
+                    get_toc fuel2 d' = if name_tree_readable d' then TOk (expected_toc d f) 0 else TErr).
+  Proof. exact reads_back_ops_after_save_load_nm. Qed.
 
   (* the same over any table that holds a forest (e.g. after adjust_zero_pages), either format *)
   Theorem C17_reads_back_forest_after_save_load :
@@ -460,7 +586,6 @@ Section AfterSaveAndReload.
       m0 + 1 + 2 * N.of_nat (OutlineSpec.fsize f) + 2 < u32_mod ->
       Outline.root_id d = Some cid ->
       get_object_mut_id (d_objects d) cid = Some (rid, ODict cat) ->
-      no_name_trees cat ->
       distinct_titles f -> scalar_titles f ->
       N.of_nat (OutlineSpec.fheight f) <= OUTLINE_DEPTH_LIMIT + 1 ->
       (OutlineSpec.fheight f <= fuel)%nat ->
@@ -476,11 +601,13 @@ Section AfterSaveAndReload.
         savable d2 /\ known_deep d2 = false /\
         (small_file xt d2 -> targets_are_pages d f ->
          exists d', load (so_bytes (save xt d2)) = LOk d' (xtype_of xt) /\
-                    get_pages d' = get_pages d /\ get_toc fuel2 d' = TOk (expected_toc d f) 0).
-  Proof. exact reads_back_after_save_load. Qed.
+                    get_pages d' = get_pages d /\
+                    get_toc fuel2 d' = if name_tree_readable d' then TOk (expected_toc d f) 0 else TErr).
+  Proof. exact reads_back_after_save_load_nm. Qed.
 
   (* non-vacuity: the example of C17_example meets the additional hypotheses; both reloaded documents read back to the
-     four rows; the stream-format one holds one object more *)
+     four rows; the stream-format one holds one object more.  The example with a name tree (C17_example_named_destinations)
+     too: savable, and after either save + load the tree is readable and the four rows come back *)
   Theorem C17_example_after_save_load :
     savable OutlineProofsProps.ex_doc /\ known_deep OutlineProofsProps.ex_doc = false /\
     Forall op_ok ex_ops /\ N.of_nat (length ex_ops) < u32_mod /\
@@ -489,8 +616,15 @@ Section AfterSaveAndReload.
     targets_are_pages ex_final ex_forest /\
     get_toc 4 (reloaded XTable ex_final) = TOk ex_toc 0 /\
     get_toc 4 (reloaded XStream ex_final) = TOk ex_toc 0 /\
-    length (d_objects (reloaded XStream ex_final)) = S (length (d_objects ex_final)).
-  Proof. exact ex_after_save_load. Qed.
+    length (d_objects (reloaded XStream ex_final)) = S (length (d_objects ex_final)) /\
+    savable nd_doc /\ known_deep nd_doc = false /\
+    d_max_id nd_doc + 1 + 2 * N.of_nat (OutlineSpec.fsize ex_forest) + 2 < u32_mod /\
+    small_file XTable nd_final /\ small_file XStream nd_final /\
+    name_tree_readable (reloaded XTable nd_final) = true /\
+    name_tree_readable (reloaded XStream nd_final) = true /\
+    get_toc 4 (reloaded XTable nd_final) = TOk ex_toc 0 /\
+    get_toc 4 (reloaded XStream nd_final) = TOk ex_toc 0.
+  Proof. exact ex_after_save_load_nm. Qed.
 End AfterSaveAndReload.
 
 Print Assumptions C17_reads_back_after_save_load_table.
